@@ -155,7 +155,8 @@ def run(chk):
     n_trees = 700 if quick else 6000
     chk.rule = ("a case is (tree built from generated keys incl. directory objects, empty directories, skipped files and names that "
                 "sort before '/', prefix, delimiter, marker, max) — one Walk page, plus for every tree a marker-following "
-                "pagination from the start; non-trivial when the page is non-empty or truncated; distinct by content.")
+                "pagination from the start; plus put/delete histories on the real gateway (plain and versioned: delete, delete by version id, markers) after which "
+                "neither the listing nor the bucket directory may hold anything but the remaining keys; non-trivial when the page is non-empty or truncated; distinct by content.")
     corr = gobuild.build_tool("corr")
     built = coq.ensure_built(chk, TARGETS)
     if built:
@@ -371,6 +372,63 @@ def run_http(chk, built, tref, treedefs):
                 chk.count("http-list:%s:%s" % ("v2" if v2 else "v1", resp.status))
                 chk.traces += 1
         chk.tie("gateway still running after the listing requests", g.alive(), g.log_tail())
+    # ---- keys that were deleted again must not leave anything a listing can see (the gateway removes the directories it made)
+    for label, cfg in (("plain", {"iam": False}), ("versioned", {"iam": False, "versioning": True})):
+        with gw.Site(cfg, name="c07d") as site:
+            g = site.gateway(gwbin)
+            cl = s3c.Client(g.port, "root", "rootsecret")
+            for hidx in range(6 if quick else 40):
+                bucket = "del%03d" % hidx
+                assert cl.req("PUT", "/" + bucket).status == 200
+                venabled = label == "versioned" and hidx % 3 != 2
+                if venabled:
+                    cl.req("PUT", "/" + bucket, query={"versioning": ""}, body=b"<VersioningConfiguration><Status>Enabled</Status></VersioningConfiguration>")
+                keys = rnd.sample(["docs/2024/q1/report.txt", "docs/2024/q2.txt", "docs/readme", "a/b/c/d/e", "a/b/x", "top", "dir/", "dir/sub/", "z/y/"], rnd.randrange(3, 8))
+                hist, vids = [], {}
+                for k in keys:
+                    for _ in range(rnd.choice([1, 1, 2])):
+                        r = cl.req("PUT", "/%s/%s" % (bucket, k), body=b"" if k.endswith("/") else b"x" * rnd.randrange(1, 50))
+                        if r.status == 200: vids.setdefault(k, []).append(r.headers.get("x-amz-version-id"))
+                        hist.append("put %s -> %d" % (k, r.status))
+                gone = rnd.sample(sorted(vids), rnd.randrange(1, len(vids) + 1))
+                for k in gone:
+                    how = rnd.choice(["by-version", "marker-then-versions", "versions-then-plain"]) if venabled else "plain"
+                    if how == "plain":
+                        hist.append("delete %s -> %d" % (k, cl.req("DELETE", "/%s/%s" % (bucket, k)).status))
+                    else:
+                        if how == "marker-then-versions":
+                            r = cl.req("DELETE", "/%s/%s" % (bucket, k)); hist.append("delete %s -> %d (marker %s)" % (k, r.status, r.headers.get("x-amz-version-id")))
+                        for _ in range(3):
+                            lv = cl.req("GET", "/" + bucket, query={"versions": "", "prefix": k})
+                            ents = [x for x in list(lv.xml().findall("Version")) + list(lv.xml().findall("DeleteMarker")) if x.findtext("Key") == k] if lv.status == 200 and lv.xml() is not None else []
+                            for x in (ents if how != "by-version" else list(reversed(ents))):
+                                r = cl.req("DELETE", "/%s/%s" % (bucket, k), query={"versionId": x.findtext("VersionId")})
+                                hist.append("delete %s version %s -> %d" % (k, x.findtext("VersionId"), r.status))
+                            if not ents: break
+                        if how == "versions-then-plain":
+                            hist.append("delete %s -> %d" % (k, cl.req("DELETE", "/%s/%s" % (bucket, k)).status))
+                left = [k for k in vids if k not in gone]
+                ls = cl.req("GET", "/" + bucket, query={"list-type": "2"})
+                listed = sorted(c.findtext("Key") for c in ls.xml().findall("Contents")) if ls.status == 200 and ls.xml() is not None else None
+                ld = cl.req("GET", "/" + bucket, query={"list-type": "2", "delimiter": "/"})
+                cps = sorted(c.findtext("Prefix") for c in ld.xml().findall("CommonPrefixes")) if ld.status == 200 and ld.xml() is not None else None
+                want_cps = sorted({k.split("/")[0] + "/" for k in left if "/" in k})
+                onfs = []
+                for dp, dn, fn in os.walk(os.path.join(site.root, bucket)):
+                    rel = os.path.relpath(dp, os.path.join(site.root, bucket))
+                    if rel == "." or rel.split(os.sep)[0] == ".sgwtmp": continue
+                    if not any(True for _d, _dn, f2 in os.walk(dp) if f2) and not any((rel + "/") == k or k.startswith(rel + "/") for k in left):
+                        onfs.append(rel + "/")
+                meta = {"config": label, "versioning_enabled": venabled, "history": hist, "remaining_keys": sorted(left), "listed": listed, "common_prefixes": cps,
+                        "directories_without_keys": sorted(onfs)}
+                chk.case(("putdel", label, tuple(hist)), True); chk.traces += 1
+                chk.count("putdel:%s:%s" % (label, "clean" if not onfs and cps == want_cps else "residue"))
+                if listed != sorted(left):
+                    chk.fail("c07:listing-after-deletes", "[%s] after %s the listing shows %r, the keys that remain are %r" % (label, "; ".join(hist[-6:]), listed, sorted(left)), meta)
+                elif cps != want_cps or onfs:
+                    chk.fail("c07:gateway-left-keyless-directory:%s" % label, "[%s] after its own deletes the gateway leaves directories that hold no key (%s); the delimited listing shows common prefixes %r, the remaining keys have %r"
+                             % (label, sorted(onfs), cps, want_cps), meta)
+            chk.tie("gateway still running after the put/delete histories (%s)" % label, g.alive(), g.log_tail())
     chk.samples.append(lmeta[len(lmeta) // 2])
     return lterms, lmeta
 
